@@ -105,11 +105,11 @@ theorem C05_table_errors (w : Nat) (b : Bytes) :
     · rw [if_pos hv]
 
 /-- After the scan: which boxes are required, and when "nothing to do" is reported. -/
-theorem C05_finish_required (cfg : Config) (st : ScanState) :
-    (st.ftyp = none → finish cfg st = .err .missingRequiredBox) ∧
-    (st.ftyp.isSome → (st.moov = none ∨ st.moovOffset = none) → finish cfg st = .err .missingRequiredBox) ∧
+theorem C05_finish_required (st : ScanState) :
+    (st.ftyp = none → finish st = .err .missingRequiredBox) ∧
+    (st.ftyp.isSome → (st.moov = none ∨ st.moovOffset = none) → finish st = .err .missingRequiredBox) ∧
     (st.ftyp.isSome → st.moov.isSome → st.moovOffset.isSome → st.data = none →
-      finish cfg st = .err .missingRequiredBox) := by
+      finish st = .err .missingRequiredBox) := by
   refine ⟨?_, ?_, ?_⟩
   · intro h; simp [finish, h]
   · intro hf hm
@@ -131,10 +131,10 @@ theorem C05_finish_required (cfg : Config) (st : ScanState) :
         | some o => simp [finish, hfy, hmv, hmo', hd]
 
 /-- "No metadata" is reported exactly when the (last) moov starts before the first mdat. -/
-theorem C05_noop_iff (cfg : Config) (st : ScanState) (f : Box Ftyp) (m : Box L5) (mo : Nat) (d : Span)
+theorem C05_noop_iff (st : ScanState) (f : Box Ftyp) (m : Box L5) (mo : Nat) (d : Span)
     (hf : st.ftyp = some f) (hm : st.moov = some m) (hmo : st.moovOffset = some mo) (hd : st.data = some d) :
-    (mo < d.offset → finish cfg st = .ok ⟨none, d⟩) ∧
-    (¬ mo < d.offset → ∀ r, finish cfg st = .ok r → r.metadata.isSome ∧ r.data = d) := by
+    (mo < d.offset → finish st = .ok ⟨none, d⟩) ∧
+    (¬ mo < d.offset → ∀ r, finish st = .ok r → r.metadata.isSome ∧ r.data = d) := by
   constructor
   · intro h; simp [finish, hf, hm, hmo, hd, h]
   · intro h r hr
